@@ -247,8 +247,10 @@ def char_claims(O, s):
     except (ZeroDivisionError, OverflowError):
         return [('no claim: division by zero or overflow in the reference value', True)]
 def _char_claims(O, s):
-    got = lib_outcome(s, O)
     cat, what = classify(O, s)
+    if cat == 'none':
+        return [('no claim: ' + what, True)]
+    got = lib_outcome(s, O)
     if cat == 'reject':
         return [(f'ill-formed ({what}) is rejected', O.same(got[0], 'raised'))]
     if cat == 'value':
